@@ -139,7 +139,8 @@ def make_asyncio_shim():
 
 def setup(opts):
     run.datetime = VDT
-    patchall.replace_everywhere(dt.datetime, VDT)   # wherever else the package reads the clock
+    patchall.patch_attr(dt, "datetime", VDT)   # wherever else the package reads the clock: the class under any name,
+    #                                        or the datetime module itself under any name (import datetime as dt)
     run.delayed_send = delayed_send_shim
     run.get_task_delay = get_task_delay_shim
     run.asyncio = make_asyncio_shim()
